@@ -361,6 +361,9 @@ func runC08(w *world, c c08case, rep *lib.Report) {
 	if len(named) > 0 {
 		rep.Count("cases_with_connection_named_headers")
 	}
+	if len(named) > 0 || strings.Contains(c.target, "%") {
+		rep.Nontrivial++ // distinct case, counted once
+	}
 }
 
 func RunC08(tier string, sh lib.Shard, rep *lib.Report) {
@@ -386,7 +389,6 @@ func RunC08(tier string, sh lib.Shard, rep *lib.Report) {
 			rep.Sample(4, c.String())
 		}
 	}
-	rep.Nontrivial = rep.Counters["targets_with_escapes"] + rep.Counters["cases_with_connection_named_headers"]
 }
 
 func ReplayC08(rp map[string]any) (bool, string) {
